@@ -43,7 +43,7 @@ def generate(r):
             kinds += ["callc", "callc"]
         if lets:
             kinds += ["assign"]
-        kinds += ["ghost", "latefiber", "defthenraise"]
+        kinds += ["ghost", "latefiber", "defthenraise", "relay"]
         if lets:
             kinds += ["setter"]
         if setters:
@@ -162,6 +162,31 @@ def generate(r):
             queued.append(["launch bad%d(); print('got', <- ab%d);" % (i, i), False, "launch (|| { print('got', <- ab%d); })();" % i])
             queued.append(["ab%d <- %d; let answer%d = %d; print('sent');" % (i, r.randint(1, 9), i, 40 + i), True])
             queued.append(["print(answer%d);" % i, True])
+        elif k == "relay" and not any("rly" in e[0] for e in queued):
+            # a line whose fiber parks on a channel and is woken by other routes than its registration there (a child that
+            # ends, a value that arrives after a detour over a second channel): whatever the line's fiber leaves behind on
+            # the channel when it returns, later lines use the same channel with fibers that park on it and end
+            cap = r.choice(["", "1", "2", "3"])
+            entries.append(["let rly%d = chan(%s); let rlyd%d = chan(%d);" % (i, cap, i, r.randint(1, 2)), True])
+            queued.append(["fn rlysnd%d(v) { <- rlyd%d; rly%d <- v; } fn rlynop%d() { } fn rlykick%d() { rlyd%d <- 1; }" % ((i,) * 6), True])
+            senders = r.randint(1, 2)
+            launches = ["launch rlysnd%d(%d);" % (i, 7 + j) for j in range(senders)]
+            launches += ["launch rlynop%d();" % i for _ in range(r.randint(0, 3))]
+            kicks = ["launch rlykick%d();" % i for _ in range(senders)]
+            if r.random() < 0.3:
+                kicks[0] = "rlyd%d <- 1;" % i
+            launches += kicks
+            r.shuffle(launches)
+            # with two senders the sum does not depend on which value arrives first
+            queued.append(["%s print('relay', %s);" % (" ".join(launches), " + ".join("<- rly%d" % i for _ in range(senders))), True])
+            for step in range(r.randint(1, 3)):
+                form = r.choice([
+                    "let rlyr%d_%d = chan(1); launch (|| { rlyr%d_%d <- (<- rly%d) + 1; })(); rly%d <- %d; print('probe', <- rlyr%d_%d);",
+                    "let rlyr%d_%d = chan(1); launch (|| { rly%d <- %d; rlyr%d_%d <- 0; })(); print('probe', <- rly%d, <- rlyr%d_%d);"])
+                if form.startswith("let rlyr%d_%d = chan(1); launch (|| { rlyr"):
+                    queued.append([form % (i, step, i, step, i, i, 20 + step, i, step), True])
+                else:
+                    queued.append([form % (i, step, i, 30 + step, i, step, i, i, step), True])
         elif k == "latefiber":
             # a fiber launched by one entry and not run yet when the entry ends; a later entry communicates with it
             entries.append(["fn lw%d(ch, n) { for j in n.times() { ch <- j * %d; } } let lch%d = chan(2); launch lw%d(lch%d, 2);" % (
